@@ -298,6 +298,13 @@ def handleTraffic (j : Json) : Json :=
     (if yamlNonJSON (getD req "ybody" Json.null) || yamlNonJSON (getD (getD j "resp" Json.null) "ybody" Json.null) then ["traffic.yaml-non-json-value"] else []) ++
     (if ([getStr req "query", getStr req "path"] ++ headerVals req ++ headerVals (getD j "resp" Json.null)).any nanInfText then ["traffic.nan-inf-text"] else []) ++
     (if hasKey req "body_b64" then ["req.binary-body"] else []) ++
+    -- state kept between calls (NoPanic/PatternCache): a history of the same exchange; a pattern document validation does not compile
+    (if getStr req "ct" == "application/x-c10-typed" then ["req.typed-value"] else []) ++
+    (if getStr req "ct" == "application/x-c10-typed" && ((getStr req "body").splitOn "[{\"i\"").length + ((getStr req "body").splitOn "[{\"b\"").length + ((getStr req "body").splitOn "[{\"f\"").length > 3 then ["req.typed-non-string-key"] else []) ++
+    (if getNat j "repeat" ≥ 2 then ["history.repeat"] else []) ++
+    (if !(getArr j "before").isEmpty then ["history.other-document-first"] else []) ++
+    (if getNat j "repeat" ≥ 2 && getBool j "reuse" then ["history.same-objects"] else []) ++
+    (if (objects doc).any (fun o => (match o.getObjVal? "pattern" with | .ok (.str _) => true | _ => false) && getStr o "type" != "string") then ["doc.pattern-not-compiled-by-gate"] else []) ++
     (if literal then ["fixed.literal-template"] else []) ++ (if portBad then ["fixed.port-unclosed"] else []) ++
     (if paramNoSchema then ["fixed.content-param-no-schema"] else []) ++ (if emp then ["fixed.emptiness-cycle"] else []) ++
     -- input classes of the findings repaired in round 3 (F-C10-6/7/8): regression coverage, no longer exclusions
